@@ -122,6 +122,11 @@ Section Mat.
   Definition np_mwhere (M : list (list bool)) (v : F) (A : list (list F)) : list (list F) :=
     map2 (map2 (fun (b : bool) x => if b then v else x)) M A.
   (* v.max() / v.min() of a non-empty vector (NumPy raises on an empty one; RDM rows never are) *)
+  (* np.std of a vector (population standard deviation), and the mean over the rows of a stack, entry by entry, as a 1 x n array *)
+  Definition py_std (x : list F) : F :=
+    let m := mean O x in nsqrt O (mean O (map (fun v => nmul O (nsub O v m) (nsub O v m)) x)).
+  Definition np_colmean (A : list (list F)) : list F :=
+    match A with [] => [] | x :: _ => vdivs O (vsum O (length x) A) (ofnat O (length A)) end.
   Definition py_max (l : list F) : F := fold_right (nmax O) (hd (n0 O) l) l.
   Definition py_min (l : list F) : F := fold_right (nmin O) (hd (n0 O) l) l.
   (* A @ B.T, np.dot(A, B.T), np.einsum('ik,jk', A, B) *)
